@@ -515,6 +515,9 @@ func (i *Interface) Delete(key string) error {
 		return ErrReadOnly
 	}
 
+	r.Lock()
+	defer r.Unlock()
+
 	i.options.Apply(r)
 	r.Meta().Delete()
 
